@@ -701,6 +701,13 @@ fn trace_reset(w: &mut W, seed: u64, n_ops: usize, st: &mut Stats) {
         chewing_set_ShapeMode(b, chewing_get_ShapeMode(a));
     }
     hist.push("| continuation:".into());
+    // the iterator slots themselves: read WITHOUT Enumerate directly after the reset (a new context has empty slots)
+    st.r_raw_after_reset += 1;
+    let raws = |c: Ctx| -> String { (0..8).map(|i| unsafe { raw(c, i) }).collect::<Vec<_>>().join(" | ") };
+    let (xa, xb) = (raws(a), raws(b));
+    if xa != xb {
+        w.fail("reset vs new context: iterator slots read without Enumerate differ directly after the reset", &hist, seed, &first_diff(&xa, &xb));
+    }
     let (oa, ob) = unsafe { (observe(a), observe(b)) };
     st.observations += 1;
     let mut ok = true;
@@ -906,6 +913,7 @@ struct Stats {
     r_ops: u64,
     r_in_selecting: u64,
     r_in_syllable: u64,
+    r_raw_after_reset: u64,
     p_traces: u64,
     p_ops: u64,
     p_other_ops: u64,
@@ -949,6 +957,7 @@ fn worker(section: &str, from: u64, to: u64) {
             o.stat("R.continuation_ops", st.r_ops);
             o.stat("R.reset_while_selecting", st.r_in_selecting);
             o.stat("R.reset_with_pending_syllable", st.r_in_syllable);
+            o.stat("R.raw_slot_reads_after_reset", st.r_raw_after_reset);
             o.stat("R.observations", st.observations);
         }
         _ => {
